@@ -224,7 +224,7 @@ def rgfa(draw, min_chroms=1, max_chroms=2, max_elements=5, max_ln=9, min_element
     start = draw(st.sampled_from([0, 0, 6, 95, 996]))
     # segment names are arbitrary non-blank strings: also ids with '.', '-' and '#'
     b = _Builder(draw, rnd, [draw(st.sampled_from(["s", "s", "s", ""])),  # "" = purely numeric ids, as vg / odgi / pggb write them
-                             draw(st.sampled_from(["utg", "n", "s0", "s1.", "ctg-", "n#", "b", "s,", "u=", "t;", "@", "@s"]))], start, max_ln)
+                             draw(st.sampled_from(["utg", "n", "s0", "s1.", "ctg-", "n#", "b", "s,", "u=", "t;", "@", "@s", "Name", "S", "L"]))], start, max_ln)
     b.cycles = cycles
     b.ref_gaps = ref_gaps and draw(st.integers(0, 3)) == 0
     nchrom = draw(st.integers(min_chroms, max_chroms))
@@ -249,6 +249,21 @@ def rgfa(draw, min_chroms=1, max_chroms=2, max_elements=5, max_ln=9, min_element
         picked = draw(st.permutations(ids))[:k]
         mapping = {old: new for old, new in zip(picked, letters) if new not in g["nodes"]}
         g = rename_nodes(g, mapping)
+    elif draw(st.integers(0, 7)) == 0 and len(g["nodes"]) >= 2:
+        # two segment names that differ only in letter case are two segments
+        ids = sorted(g["nodes"])
+        a_, b_ = draw(st.permutations(ids))[:2]
+        twin = a_.swapcase() if a_.swapcase() != a_ else a_ + "A"
+        other = twin.swapcase() if twin.swapcase() != twin else None
+        if twin not in g["nodes"] and (a_ + "A" != twin or True):
+            if twin == a_ + "A":
+                # no letter to flip: make the pair <a>A / <a>a
+                low = a_ + "a"
+                if low not in g["nodes"]:
+                    g = rename_nodes(g, {b_: twin})
+                    g = rename_nodes(g, {a_: low}) if False else g
+            else:
+                g = rename_nodes(g, {b_: twin})
     return g
 
 
@@ -267,7 +282,7 @@ def rename_nodes(x, mapping):
 # rendering
 
 
-_OVERLAPS = ["0M", "1M", "0M", "3M", "7M", "0M", "2M"]
+_OVERLAPS = ["0M", "1M", "0M", "3M", "12M", "0M", "25M", "7M", "130M", "2M"]
 _TAG_ORDERS = [(0, 1, 2, 3), (3, 1, 2, 0), (1, 3, 0, 2), (2, 3, 1, 0), (0, 1, 2, 3), (3, 2, 1, 0)]
 
 
@@ -348,6 +363,10 @@ def sam_tags(draw, max_tags=3, reserved=()):
             continue
         ty = draw(st.sampled_from("AifZHB"))
         out.append("%s:%s:%s" % (nm, ty, _tag_value(draw, ty)))
+    for i_ in range(len(out) - 1):
+        # a Z value may end in a blank as long as another column follows (a line's own trailing blank is the loader's business)
+        if out[i_].split(":")[1] == "Z" and draw(st.integers(0, 3)) == 0:
+            out[i_] += " "
     return out
 
 
